@@ -70,7 +70,7 @@ func runPropertyRaw(prop, tier string, forBaseline bool) *Report {
 	ts, missing := s.targets(prop, "")
 	var results []*FuncResult
 	for _, t := range ts {
-		results = append(results, verifyFunction(t.w, t.ss, t.fn, t.spec))
+		results = append(results, verifyTarget(t))
 	}
 	timeout := 20
 	agree := false
